@@ -154,6 +154,19 @@ func (fx *FnCtx) instr(in ssa.Instruction) {
 		fx.assume(eq(st.read(P, l), P.sorts.zero(t)))
 	case *ssa.Store:
 		l := fx.resolveAddr(x.Addr)
+		for _, c := range l.comps(P) {
+			if fvs, ok := fx.cellOnly[c]; ok {
+				okAddr := false
+				for _, fv := range fvs {
+					if x.Addr == ssa.Value(fv) {
+						okAddr = true
+					}
+				}
+				if !okAddr && !isFreshBase(x.Addr) {
+					fx.errf("contract of %s allows writing %s only through its captured variable, but a store goes elsewhere", fx.key, c)
+				}
+			}
+		}
 		fx.freshWrite = isFreshBase(x.Addr)
 		st.write(P, l, fx.val(x.Val))
 		fx.freshWrite = false
@@ -983,7 +996,7 @@ func (fx *FnCtx) call(v *ssa.Call, c *ssa.CallCommon) {
 			for i, fv := range callee.FreeVars {
 				bt := deref(fv.Type())
 				ref := fx.val(mc.Bindings[i])
-				env.bound[fv.Name()] = Val{T: cur.read(P, &Loc{kind: locPtr, base: ref, rootT: bt}), GoT: bt}
+				env.bound[fv.Name()] = Val{T: ref, DerefT: bt}
 			}
 		}
 		return env
@@ -1035,6 +1048,24 @@ func (fx *FnCtx) call(v *ssa.Call, c *ssa.CallCommon) {
 		fx.havocAll(st)
 	} else {
 		for _, m := range fc.Modifies {
+			if callee != nil && mc != nil {
+				if fv := freeVarNamed(callee, m); fv != nil {
+					// cell-level havoc of one captured variable
+					var bind ssa.Value
+					for i, f := range callee.FreeVars {
+						if f == fv {
+							bind = mc.Bindings[i]
+						}
+					}
+					bt := deref(fv.Type())
+					nv := fx.freshConst("cap_"+fv.Name(), P.sorts.sortOf(bt))
+					fx.assume(fx.typeAssume(nv, bt, st))
+					fx.freshWrite = isFreshBase(bind)
+					st.write(P, &Loc{kind: locPtr, base: fx.val(bind), rootT: bt}, nv)
+					fx.freshWrite = false
+					continue
+				}
+			}
 			cs, err := P.modComps(cpkg, m)
 			if err != nil {
 				fx.errf("contract of %s: %v", fc.Key, err)
